@@ -7,10 +7,10 @@ run() { PYTHONPATH=$W /venv/bin/python "$@"; }
 [ -n "$needs_build" ] && /venv/bin/python setup.py -q build_ext --inplace -j8 >/dev/null 2>&1
 T=$(PYTHONPATH=$W timeout 1500 /venv/bin/python -m pytest -q -p no:cacheprovider --timeout=900 test 2>&1 | tail -1)
 run mutation/demo.py > /tmp/demo_with_$P.txt 2>&1; RW=$?
-git stash -q
+git diff -- . ':!mutation' > /tmp/confirm_$P.diff; git checkout -- pyiga scripts setup.py 2>/dev/null
 [ -n "$needs_build" ] && /venv/bin/python setup.py -q build_ext --inplace -j8 >/dev/null 2>&1
 run mutation/demo.py > /tmp/demo_without_$P.txt 2>&1; RO=$?
-git stash pop -q
+git apply /tmp/confirm_$P.diff
 [ -n "$needs_build" ] && /venv/bin/python setup.py -q build_ext --inplace -j8 >/dev/null 2>&1
 echo "$P: tests: $T | demo with change exit=$RW | without exit=$RO"
 if [ $RW -ne 0 ] && [ $RO -eq 0 ]; then
